@@ -2,6 +2,7 @@ package checks
 
 import (
 	"fmt"
+	"regexp"
 	"sort"
 	"strconv"
 	"strings"
@@ -90,6 +91,8 @@ func c8Program(cell c8Cell) (src, stdin string, pre map[string]string, expOut st
 	var sb strings.Builder
 	obtain := func(name string) string {
 		switch cell.origin {
+		case "literal-direct":
+			return "" // the literal is written at every place of use instead of being held in a variable
 		case "literal":
 			return name + " := " + tsQuote(v) + "\n"
 		case "raw-literal":
@@ -189,11 +192,25 @@ func c8Program(cell c8Cell) (src, stdin string, pre map[string]string, expOut st
 	default:
 		return "", "", nil, "", nil, false
 	}
-	return sb.String(), stdin, pre, expOut, expFS, true
+	src = sb.String()
+	if cell.origin == "literal-direct" {
+		switch cell.path {
+		case "subscript", "range-string", "return":
+			return "", "", nil, "", nil, false // a literal cannot be subscripted / ranged over directly
+		}
+		src = reVarXW.ReplaceAllStringFunc(src, func(string) string { return tsQuote(v) })
+	}
+	return src, stdin, pre, expOut, expFS, true
 }
 
+// reVarXW matches the variables x and w of the path templates as whole words outside string literals
+// (the templates never contain these letters as words inside their own literals).
+var reVarXW = regexp.MustCompile(`\b[xw]\b`)
+
+var c8Hostile = []string{"$(touch CANARY)", "`touch CANARY`", "$HOME", "${x}", "$x", "*", "?", "[a]", "~", "{a,b}", "-n", "-e", "-E", "--", "-", "a  b", " lead", "trail ", "a;b", "a&b", "a|b", ">f", "<f", "\"", "'", "\\", "\\n", "a\\", "!", "!!", "#c", "a #c", "%s", "%d", "$(", "$((1+1))", "\"; touch CANARY; \"", "x\" y", "$1", "$@", "$?", "&&", "||", "(", ")", "=", "a=b"}
+
 var c8Paths = []string{"sink", "print", "print-two", "assign", "concat-left", "concat-right", "compare", "argument", "argument-second", "return", "slice-literal", "slice-assign", "slice-param", "range-slice", "range-string", "subscript", "len", "write", "switch"}
-var c8Origins = []string{"literal", "raw-literal", "file", "stdin", "command"}
+var c8Origins = []string{"literal", "literal-direct", "raw-literal", "file", "stdin", "command"}
 
 func c8Run(cell c8Cell) (execCase, execOutcome, bool) {
 	src, stdin, pre, expOut, expFS, ok := c8Program(cell)
@@ -277,10 +294,45 @@ func TestC08(t *testing.T) {
 			}
 		}
 	}
+	// whole-value words: strings that are dangerous as a whole (option words, expansions, operators), every path x origin
+	for _, v := range c8Hostile {
+		for _, origin := range c8Origins {
+			if (origin == "literal" || origin == "literal-direct" || origin == "raw-literal") && strings.ContainsAny(v, "$`\"\\") {
+				continue // the listed literal-interpolation findings; the per-character matrix above keeps their cells
+			}
+			idx++
+			for _, path := range c8Paths {
+				if !e.Mine(idx) {
+					continue
+				}
+				key := origin + "|" + v
+				if path != "sink" && sinkBad[key] {
+					r.Inconclusive("sink-fails-for-this-value")
+					continue
+				}
+				c, out, ok := c8Run(c8Cell{path: path, origin: origin, value: v})
+				if !ok {
+					continue
+				}
+				ncells++
+				r.Eval()
+				cls := valueClass(v)
+				r.Class("word-path:"+path, "word-class:"+cls)
+				r.NonTrivial(c.Note, nil)
+				if out.OK {
+					continue
+				}
+				if path == "sink" {
+					sinkBad[key] = true
+				}
+				r.Violate(rep.Sig{"path": path, "origin": origin, "class": cls, "kind": out.Kind, "word": v}, c.Note+"\n"+out.Msg+"\n--- source\n"+c.Files["main.tsh"], c)
+			}
+		}
+	}
 	r.SetExtra("n_matrix_cells", ncells)
 
 	// random hostile strings through random paths
-	hostile := []string{"$(touch CANARY)", "`touch CANARY`", "$HOME", "${x}", "$x", "*", "?", "[a]", "~", "{a,b}", "-n", "-e", "-E", "--", "-", "a  b", " lead", "trail ", "a;b", "a&b", "a|b", ">f", "<f", "\"", "'", "\\", "\\n", "a\\", "!", "!!", "#c", "a #c", "%s", "%d", "$(", "$((1+1))", "\"; touch CANARY; \"", "x\" y", "$1", "$@", "$?", "&&", "||", "(", ")", "=", "a=b"}
+	hostile := c8Hostile
 	checkRapid(t, r, func(t *rapid.T) {
 		var v string
 		if gen.Uniform(0, 2).Draw(t, "hostile") > 0 {
@@ -300,7 +352,7 @@ func TestC08(t *testing.T) {
 		path := c8Paths[gen.Uniform(0, len(c8Paths)-1).Draw(t, "path")]
 		// open findings C08-literal-{dollar,backquote,dquote,backslash}: source literals are interpolated by the shell.
 		// The random search stays out of that region (counted); the matrix keeps covering it cell by cell.
-		if (origin == "literal" || origin == "raw-literal") && strings.ContainsAny(v, "$`\"\\") {
+		if (origin == "literal" || origin == "literal-direct" || origin == "raw-literal") && strings.ContainsAny(v, "$`\"\\") {
 			r.Class("excluded:C08-literal-interpolation")
 			origin = []string{"file", "command", "stdin"}[gen.Uniform(0, 2).Draw(t, "runtime-origin")]
 		}
